@@ -81,7 +81,7 @@ def main(argv=None):
     total = base.pmap(plan["run"], plan["tasks"], procs=args.procs, deadline=deadline)
     postfn = plan.get("post")
     if postfn:
-        postfn(total)
+        postfn(total, plan)
 
     # ---------------- triage
     herr = total.n.get("harness_errors", 0)
@@ -162,7 +162,7 @@ def main(argv=None):
         "exhaustive": bool(exhaustive),
         "bounds": plan.get("bounds", {}),
         "distinct_outcomes": len(total.outcomes),
-        "outcomes": dict(sorted(total.outcomes.items(), key=lambda kv: -kv[1])[:40]),
+        "outcomes": dict(sorted(total.outcomes.items(), key=lambda kv: -kv[1])[:250]),
         "counters": {k: int(v) for k, v in sorted(n.items())},
         "known_findings_hit": sorted(known_hit),
         "tasks": len(plan["tasks"]),
